@@ -215,6 +215,10 @@ func getg() uintptr
 // goid returns a goroutine identity (the address of its g; valid while the goroutine lives).
 func goid() int64 { return int64(getg()) }
 
+// GoID identifies the calling goroutine (observation aid: ties two observations made by the same
+// goroutine together; it is never used for a scheduling decision).
+func GoID() int64 { return goid() }
+
 // Logf appends to the run's event log (part of the determinism digest). Never draws.
 func Logf(format string, args ...any) {
 	s := S
